@@ -317,6 +317,17 @@ def generate(tier, rng):
         for k in range(4, len(p)):
             b.add(p[:k], None, None, tcp=k % 2 == 0)
     yield from b.scripts(per=200)
+    # every byte of the four request kinds replaced by a boundary value (fields the responder ignores today -- offsets,
+    # reserved words, counts it does not use -- must stay ignored; model and implementation are compared, no oracle)
+    b4 = Batch("single-byte-substitutions")
+    seeds4 = [mk1(rng, 0x72, smb1_neg_body([D_NTLM, D_202]))[0], mk1(rng, 0x73, smb1_setup_body(blob(9)))[0],
+              mk2(rng, 0, smb2_neg_body([0x0202, 0x0311]))[0], mk2(rng, 1, smb2_setup_body(blob(9)))[0]]
+    for p_ in seeds4:
+        for i in range(len(p_)):
+            for v in {0, 0xff, p_[i] ^ 1, p_[i] ^ 0x80, (p_[i] + 0x10) & 0xff} - {p_[i]}:
+                if thorough or (i + v) % 2 == 0:
+                    b4.add(p_[:i] + bytes([v]) + p_[i + 1:], None, None, tcp=(i + v) % 7 == 0)
+    yield from b4.scripts(per=200)
     # several messages on one flow: each is parsed by a fresh dissector of the protocol the flow is bound to
     b2 = Batch("multi-message-flows")
     n1, rq1 = mk1(rng, 0x72, smb1_neg_body([D_NTLM]), dialects=[D_NTLM])
